@@ -42,6 +42,6 @@ Proof. intros Hf Ho Hw. destruct (sq_error_shape f o b Hf Ho) as [E|[q [E Hq]]];
  - destruct w as [|w|bw]; cbn in *; try exact I; try contradiction. apply Qmult_le_0_compat; assumption. Qed.
 
 (* R-level: rmse := sqrt(mse) satisfies 0 <= rmse and rmse^2 = mse, for every non-negative rational mse *)
-Open Scope R_scope.
+Local Open Scope R_scope.
 Theorem rmse_squared_is_mse (m : Q) : (0 <= m)%Q -> 0 <= sqrt (Q2R m) /\ sqrt (Q2R m) * sqrt (Q2R m) = Q2R m.
 Proof. intro H. split. apply sqrt_pos. apply sqrt_sqrt. replace 0 with (Q2R 0) by (unfold Q2R; simpl; field). apply Qle_Rle. exact H. Qed.
